@@ -3,6 +3,7 @@ module stunharness
 go 1.20
 
 require (
+	github.com/anishathalye/porcupine v1.3.0
 	github.com/pion/stun/v3 v3.0.0
 	github.com/pion/transport/v3 v3.0.7
 )
